@@ -5,7 +5,6 @@ use vstd::prelude::*;
 use std::cmp::Ordering;
 
 verus! {
-//@ body-begin
 /*@ item file=crates/lib/src/errors/kind.rs kind=enum name=GDErrorKind
 attrs {
 #[derive(PartialEq, Eq, Structural)]
@@ -14,6 +13,7 @@ attrs {
 use GDErrorKind::*;
 /*@ include path=prelude_err.rs @*/
 
+//@ body-begin
 /// timeout-class failures (C10): nothing received / could not send
 pub open spec fn is_timeout(k: GDErrorKind) -> bool { k == PacketReceive || k == PacketSend }
 
